@@ -1099,10 +1099,21 @@ func runR145(c *Ctx) {
 			if b, ok := sl.Elem().Underlying().(*types.Basic); !ok || b.Kind() != types.String {
 				continue
 			}
-			// does the body set bits?
+			// the body: everything dominated by the header's in-loop successor - also the blocks that leave the loop
+			// (a `break` right after the bit was set never returns to the header)
+			var bodyEntry *ssa.BasicBlock
+			for _, sb := range li.header.Succs {
+				if inLoop(li, sb) {
+					bodyEntry = sb
+				}
+			}
+			if bodyEntry == nil {
+				continue
+			}
+			inBody := func(b *ssa.BasicBlock) bool { return bodyEntry.Dominates(b) }
 			sets := false
 			for _, b := range fn.Blocks {
-				if !inLoop(li, b) {
+				if !inBody(b) {
 					continue
 				}
 				for _, in := range b.Instrs {
@@ -1123,20 +1134,29 @@ func runR145(c *Ctx) {
 			key := fnm + "|loop over the values"
 			bad := ""
 			for _, b := range fn.Blocks {
-				if !inLoop(li, b) || b == li.header {
+				if !inBody(b) {
 					continue
-				}
-				for _, s := range b.Succs {
-					if !inLoop(li, s) {
-						bad = p.pos(b.Instrs[len(b.Instrs)-1].Pos())
-						if bad == "-" && len(s.Instrs) > 0 {
-							bad = p.pos(s.Instrs[0].Pos())
-						}
-					}
 				}
 				if ret, ok := b.Instrs[len(b.Instrs)-1].(*ssa.Return); ok {
 					if errResultIndex(fn.Signature) < 0 || mayReportSuccess(ret) {
 						bad = p.instrPos(ret)
+					}
+					continue
+				}
+				// a block of the body from which the header cannot be reached again, or an edge out of the loop
+				if !inLoop(li, b) {
+					bad = p.pos(b.Instrs[len(b.Instrs)-1].Pos())
+					if bad == "-" {
+						bad = p.pos(li.header.Instrs[0].Pos())
+					}
+					continue
+				}
+				for _, sb := range b.Succs {
+					if !inLoop(li, sb) && !inBody(sb) {
+						bad = p.pos(b.Instrs[len(b.Instrs)-1].Pos())
+						if bad == "-" && len(sb.Instrs) > 0 {
+							bad = p.pos(sb.Instrs[0].Pos())
+						}
 					}
 				}
 			}
